@@ -9,7 +9,7 @@ PROPS="$@"
 [ -n "$PROPS" ] || PROPS=$(python3 -c "import json;print(json.load(open('$D/meta.json'))['breaks'])")
 cd /repo || exit 2
 if ! git diff --quiet; then echo "/repo has uncommitted changes; refusing"; exit 2; fi
-git apply "$D/patch.diff" || { echo "patch does not apply to /repo HEAD"; exit 2; }
+P="$D/patch.diff"; [ -f "$D/patch_rebased.diff" ] && P="$D/patch_rebased.diff"; git apply "$P" || { echo "patch does not apply to /repo HEAD"; exit 2; }
 for P in $PROPS; do
   cd /verif && timeout 3000 ./vcheck $P > "$D/result_$P.txt" 2>&1; rc=$?
   v=$(grep -c '^VIOLATION' "$D/result_$P.txt")
